@@ -512,17 +512,28 @@ impl SvgElement {
     ///
     /// Implemented as a method rather than a `From` impl to keep private
     fn into_bytesstart(self) -> BytesStart<'static> {
+        // Attribute values are held unescaped; escape the characters which
+        // would otherwise make the (double-quoted) output ill-formed.
+        fn escape_attr(value: &str) -> String {
+            let mut result = String::with_capacity(value.len());
+            for ch in value.chars() {
+                match ch {
+                    '&' => result.push_str("&amp;"),
+                    '<' => result.push_str("&lt;"),
+                    '"' => result.push_str("&quot;"),
+                    _ => result.push(ch),
+                }
+            }
+            result
+        }
         let mut bs = BytesStart::new(self.name);
         for (k, v) in &self.attrs {
-            bs.push_attribute(Attribute::from((k.as_bytes(), v.as_bytes())));
+            bs.push_attribute(Attribute::from((k.as_bytes(), escape_attr(v).as_bytes())));
         }
         if !self.classes.is_empty() {
             bs.push_attribute(Attribute::from((
                 "class".as_bytes(),
-                self.classes
-                    .into_iter()
-                    .collect::<Vec<String>>()
-                    .join(" ")
+                escape_attr(&self.classes.into_iter().collect::<Vec<String>>().join(" "))
                     .as_bytes(),
             )));
         }
